@@ -1,6 +1,5 @@
 import NumbersModel.Drv.Proto
-import NumbersModel.Model.Tokenizer
-import NumbersModel.Gen.Constants
+import NumbersModel.Model.TokenizerCfg
 namespace NumbersModel.Drv
 open NumbersModel NumbersModel.Tokenizer
 
@@ -13,9 +12,6 @@ def subName : SubT → String
   | .OPEN => "OPEN" | .CLOSE => "CLOSE" | .ARG => "ARG" | .ROW => "ROW"
 
 def showTok (t : Tok) : String := s!"{showText t.value}/{ttypeName t.type}/{subName t.subtype}"
-
-/-- the configuration of the tokenizer as the source has it now (tables generated). -/
-def liveCfg : Cfg := ⟨Gen.TOKEN_ENDERS, Gen.ERROR_CODES, Gen.whitespace, .TokenizerError⟩
 
 def showOptNat : Option Nat → String
   | some n => s!"ok {n}"
